@@ -355,6 +355,71 @@ def remote_request_from_od():
         sx.reach("rtr-od-suppressed")
 
 
+def remote_request_after_save():
+    """the configuration is saved to the producing node over SDO and read back (same map object, and a fresh
+    consumer): a map that does not allow RTR still does not send remote requests afterwards"""
+    rig = Rig()
+    cm = rig.consumer.tpdo[1]
+    cob = sx.fresh_int("cob", 0x181, 0x57F)
+    _configure(cm, "aligned", cob)
+    rtr = bool(sx.choice(2, "rtr"))
+    cm.rtr_allowed = rtr
+    cm.trans_type = 254
+    tag = "C15/rtr-saved"
+    try:
+        cm.save()
+        cm.read()
+    except Exception as e:
+        sx.observe("exc", C.exc_name(e))
+        sx.fail("save()/read() against the producing node raised %s" % C.exc_name(e), tag + "/raises")
+        return
+    sx.prove(bool(cm.rtr_allowed) == rtr and bool(cm.enabled), "flags after save() and read()", tag + "/flags")
+    n0 = len(rig.frames)
+    cm.remote_request()
+    new = [f for f in rig.frames[n0:] if f[3]]
+    sx.prove(len(new) == (1 if rtr else 0), "remote request sent exactly when the saved configuration allows it",
+             tag + "/request")
+    sx.reach("rtr-saved")
+
+
+def two_readers():
+    """two threads wait for the same map while a third delivers one frame (every schedule at lock granularity):
+    every reader that was parked in wait_for_reception() when the frame arrived gets its timestamp"""
+    rig = Rig()
+    cm = rig.consumer.tpdo[1]
+    _configure(cm, "aligned", 0x184)
+    ts = sx.fresh_int("ts0", 1, 1 << 40)
+    data = sx.fresh_bytes("d", 8)
+    sched = sx.scheduler()
+    res, parked = {}, {}
+
+    def reader_b():
+        res["b"] = cm.wait_for_reception(timeout=1)
+
+    def feeder():
+        for t in sched.threads:
+            parked[t.name] = (t.state == "waiting")
+        rig.nb.notify(0x184, data, ts)
+    sched.spawn(reader_b, "b")
+    sched.spawn(feeder, "feeder")
+    res["a"] = cm.wait_for_reception(timeout=1)
+    sched.join()
+    sx.observe("res", [res.get("a"), res.get("b")])
+    sx.observe("parked", [parked.get("main"), parked.get("b")])
+    if parked.get("main") and parked.get("b"):
+        sx.prove(res.get("a") is not None and res.get("b") is not None, "a parked reader was not woken by the frame",
+                 "C15/two-readers/missed")
+        if res.get("a") is not None and res.get("b") is not None:
+            sx.prove((res["a"] == ts) & (res["b"] == ts), "both readers get the frame's timestamp",
+                     "C15/two-readers/timestamp")
+        woken = {t.name: (bool(t.wait_results) and t.wait_results[-1] is True) for t in sched.threads}
+        sx.observe("woken", [woken.get("main"), woken.get("b")])
+        sx.prove(woken.get("main") and woken.get("b"), "a parked reader slept on until its time-out although the frame "
+                 "had arrived", "C15/two-readers/not-woken")
+        sx.reach("two-readers-parked")
+    sx.reach("two-readers")
+
+
 def collide_disabled():
     """a disabled map sharing the COB-ID of an enabled one must not take the enabled map's subscription away"""
     rig = Rig()
@@ -419,7 +484,8 @@ def sequence(k, s0=None, s1=None):
 
 
 def jobs(tier):
-    out = [dict(func="named_lookup", params={})]
+    out = [dict(func="named_lookup", params={}), dict(func="remote_request_after_save", params={}),
+           dict(func="two_readers", params={}, weight=50)]
     for code in (0x1B, 0x15, 0x11, 0x07, 0x18) if tier == "quick" else (0x1B, 0x15, 0x11, 0x07, 0x18, 0x08, 0x10, 0x16, 0x19):
         out.append(dict(func="roundtrip_from_od", params=dict(code=code)))
     for layout in ("suite", "aligned", "straddle", "odd"):
@@ -459,7 +525,7 @@ META = dict(
                     "for PDO maps in this harness (frame format is C10's business)"],
     assumptions=["producer and consumer are configured with the same mapping by the harness"],
     stubs=["struct", "threading.Condition", "Network.send_message replaced by a loopback", "logging"],
-    required_reach=["named", "from-od", "roundtrip", "collide-hit", "collide-miss", "collide-both", "wait-hit", "wait-timeout", "threads-woken", "threads-timeout", "rtr-sent",
+    required_reach=["named", "from-od", "rtr-saved", "two-readers", "two-readers-parked", "roundtrip", "collide-hit", "collide-miss", "collide-both", "wait-hit", "wait-timeout", "threads-woken", "threads-timeout", "rtr-sent",
                     "rtr-suppressed", "rtr-od-sent", "rtr-od-suppressed", "collide-disabled", "seq-transmit", "seq-foreign", "seq-reconfigure", "sequence"],
     limits=dict(quick=dict(max_decisions=20000), thorough=dict(max_decisions=50000)),
     validate_every=dict(quick=5, thorough=31),
